@@ -63,11 +63,12 @@ crate::harnesses! {
     /// @timeout 900
     #[cfg_attr(kani, kani::unwind(12))]
     fn write_special_default() {
-        let b32: u32 = any();
-        let b64: u64 = any();
+        // the exponent field is concrete (all ones) so that the finite-float writers are pruned syntactically
+        let m32: u32 = any();
+        let m64: u64 = any();
+        let b32: u32 = 0x7F80_0000 | (m32 & 0x807F_FFFF);
+        let b64: u64 = 0x7FF0_0000_0000_0000 | (m64 & 0x800F_FFFF_FFFF_FFFF);
         let o = Options::new();
-        assume((b32 >> 23) & 0xFF == 0xFF);
-        assume((b64 >> 52) & 0x7FF == 0x7FF);
         let r = cmp_special_write_f32(b32, &o, b"NaN", b"inf");
         vcheck!(matches!(r, Ok(true)), "f32 specials are written as documented");
         let r = cmp_special_write_f64(b64, &o, b"NaN", b"inf");
@@ -96,8 +97,8 @@ crate::harnesses! {
     /// @timeout 900
     #[cfg_attr(kani, kani::unwind(12))]
     fn write_special_custom_strings() {
-        let b32: u32 = any();
-        assume((b32 >> 23) & 0xFF == 0xFF);
+        let m32: u32 = any();
+        let b32: u32 = 0x7F80_0000 | (m32 & 0x807F_FFFF);
         vcheck!(OPT_CUSTOM.is_valid(), "custom options are valid");
         let r = cmp_special_write_f32(b32, &OPT_CUSTOM, b"nan", b"Infinity");
         vcheck!(matches!(r, Ok(true)), "f32 specials are written as the configured strings");
